@@ -115,6 +115,7 @@ class Tracker:
         self.reused = 0
         self.pool = pool  # same_object steps: objects built by earlier calls of the step, by (tag, build key)
         self.pooled = 0
+        self.representation = None  # None | "little" | "frozen": the container of bit-string arguments (same bit sequence)
 
     def obj(self, tag: str, key: Any, build: Callable[[], Any], name: str = "", snapshot: bool = True):
         """An OBJECT argument (parsed / constructed through the library): built by ``build()`` - or, inside a same_object step,
@@ -153,9 +154,11 @@ class Tracker:
         return [o for _, o, _ in self.items]
 
     def bits(self, s: str, endian: str = "big", name: str = ""):
-        from bitarray import bitarray
+        from bitarray import bitarray, frozenbitarray
 
-        return self.track(bitarray(s, endian=endian), name)
+        if self.representation == "frozen":
+            return self.track(frozenbitarray(s, endian=endian), name)
+        return self.track(bitarray(s, endian="little" if self.representation == "little" else endian), name)
 
     def bytearray(self, h: str, name: str = ""):
         return self.track(bytearray(bytes.fromhex(h)), name)
@@ -406,8 +409,9 @@ def scribble(result: Any, arguments: List[Any], result_in_scope: bool = True) ->
     return count[0]
 
 
-def _run_one(e: Entry, a: dict, reuse: Optional[List[Any]] = None, pool: Optional[Dict[str, Any]] = None):
+def _run_one(e: Entry, a: dict, reuse: Optional[List[Any]] = None, pool: Optional[Dict[str, Any]] = None, representation: Optional[str] = None):
     T = Tracker(reuse, pool)
+    T.representation = representation
     rec: Dict[str, Any] = {}
     res = None
     try:
@@ -432,7 +436,10 @@ def run_calls_here(calls: List[dict]) -> List[dict]:
     (result and arguments), call again with arguments rebuilt from JSON -> {"multi": [first, second]}; {op: "reuse", e, a, b}:
     call with a, overwrite the same argument buffers in place with b's values and call again, then call with a fresh copy of a
     -> {"multi": [a, b_in_reused_buffers, a_again]}; {op: "same_object", e, a, seq: [call, ...]}: the calls of seq run with one
-    shared pool of object arguments (an object argument with the same tag and build key is built once and passed again)."""
+    shared pool of object arguments (an object argument with the same tag and build key is built once and passed again);
+    {op: "serialise_later", e, a, seq}: the calls of seq run and keep their results, then every result is observed (serialised
+    through the library, repr, attribute tree) once more, last first -> {"multi": [records..., later records (reversed)...]}.
+    A plain call may carry r: "little" | "frozen": its bit-string arguments are built as little-endian / frozen bitarrays."""
     out = []
     for c in calls:
         e = CATALOGUE.get(c["e"])
@@ -440,7 +447,20 @@ def run_calls_here(calls: List[dict]) -> List[dict]:
             raise HarnessError(f"unknown catalogue entry {c['e']}")
         op = c.get("op")
         if not op:
-            out.append(_run_one(e, c["a"])[0])
+            out.append(_run_one(e, c["a"], representation=c.get("r"))[0])
+        elif op == "serialise_later":
+            firsts, results = [], []
+            for q in c["seq"]:
+                eq = CATALOGUE.get(q["e"])
+                if eq is None:
+                    raise HarnessError(f"unknown catalogue entry {q['e']}")
+                r, res, _ = _run_one(eq, q["a"], representation=q.get("r"))
+                firsts.append(r)
+                results.append(res)
+            later = []
+            for r, res in reversed(list(zip(firsts, results))):  # observe (serialise, repr, fields) every result again, last first
+                later.append({k: v for k, v in r.items() if k != "ok"} if "raised" in r else {**{k: v for k, v in r.items() if k != "ok"}, "ok": obs(res, top=True)})
+            out.append({"multi": firsts + later, "touched": len(results)})
         elif op == "scribble_repeat":
             r1, res, T = _run_one(e, c["a"])
             n = scribble(res, T.buffers(), result_in_scope=not e.no_scribble)
@@ -546,10 +566,12 @@ def fork_run(calls: List[dict], timeout: float = 60.0, poison: bool = False) -> 
 # ----------------------------------------------------------------------------------------------
 # clock / randomness zygotes (fresh interpreters)
 
-PIN_EPOCHS = (1_600_000_000, 1_600_000_000 + 400 * 86400)  # 2020-09-13 and 400 days later
+# pinned clocks (12:00 UTC): the project's present 2026-09-26, and two far apart: 1971-01-02 and 2099-12-30
+PIN_EPOCHS = (1_790_424_000, 31_665_600, 4_102_315_200)
+PIN_DATES = ("2026-09-26", "1971-01-02", "2099-12-30")
 
 
-ZYGOTES = ((0, {}), (1, {}), (0, {"PYTHONMALLOC": "debug"}))  # (clock / random-stream index, extra environment)
+ZYGOTES = ((0, {}), (1, {}), (2, {}), (0, {"PYTHONMALLOC": "debug"}))  # (clock / random-stream index, extra environment)
 
 
 def _patch_clock_and_random(k: int):
@@ -627,8 +649,8 @@ def zygote_main(k: int, catalogue_module: str):
 
 
 class ZygotePair:
-    """Fresh interpreters (see ZYGOTES): two with pinned, different clocks and random streams, one more with the first clock
-    and a debug allocator."""
+    """Fresh interpreters (see ZYGOTES): three with pinned clocks far apart (present, 1971, 2099) and different random
+    streams, one more with the first clock and a debug allocator."""
 
     def __init__(self, catalogue_module: str):
         self.procs = []
@@ -719,6 +741,10 @@ class Spec:
     def unit(self) -> str:
         """one unit of a string-valued spec: a bit or an octet"""
         return "00"
+
+    def unusual(self, rng) -> List[Any]:
+        """values with one enum-coded switch set to a code the spec does not list (accepted-but-unlisted or rejected: observed)"""
+        return []
 
     def canon(self, rng, k: int):
         """k-th canonical value (k = 0, 1: the regular shape, two different values; k >= 2: an alternative shape)."""
@@ -939,14 +965,39 @@ class Choice(Spec):
         # variants 0 and 1 share every mode switch and differ in their data only; variant 2 takes the next mode
         return self.values[0] if k < 2 else self.values[1 % len(self.values)] if k == 2 else rng.choice(self.values)
 
+    def unusual(self, rng):
+        return self.unlisted()
+
 
     def modes(self):
         return [Const(v) for v in self.values]
+
+    def unlisted(self, limit: int = 6) -> List[Any]:
+        """codes of the same width that the choice does not list (enum-coded fields as '01' strings of <= 8 bits or as two hex
+        digits): lowest, highest and some in between"""
+        vs = [v for v in self.values if isinstance(v, str)]
+        if not vs or len(vs) != len(self.values) or len({len(v) for v in vs}) != 1:
+            return []
+        w = len(vs[0])
+        if set("".join(vs)) <= {"0", "1"} and 2 <= w <= 8:
+            rest = [format(i, f"0{w}b") for i in range(1 << w) if format(i, f"0{w}b") not in vs]
+        elif w == 2 and all(c in "0123456789abcdefABCDEF" for c in "".join(vs)):
+            low = {v.lower() for v in vs}
+            rest = ["%02x" % i for i in range(256) if "%02x" % i not in low]
+        else:
+            return []
+        if len(rest) <= limit:
+            return rest
+        step = (len(rest) - 1) / (limit - 1)
+        return [rest[round(i * step)] for i in range(limit)]
 
 
 class Flag(Choice):
     def __init__(self):
         super().__init__([False, True])
+
+    def unlisted(self, limit: int = 6):
+        return []
 
 
 class Const(Spec):
@@ -1004,6 +1055,15 @@ class Map(Spec):
     def unit(self):
         return self.spec.unit()
 
+    def unusual(self, rng):
+        out = []
+        for b in self.spec.unusual(rng):
+            try:
+                out.append(self.fn(b))
+            except Exception:
+                pass
+        return out
+
 
 def _each_choice(named: Dict[Any, Spec]) -> List[Dict[Any, Spec]]:
     """each-choice combination of the modes of several specs: the all-first combination, then every other mode of every
@@ -1046,6 +1106,14 @@ class OneOf(Spec):
 
     def unit(self):
         return self.specs[0].unit()
+
+    def unusual(self, rng):
+        out = []
+        for sp in self.specs:
+            for v in sp.unusual(rng):
+                if v not in out:
+                    out.append(v)
+        return out
 
 
 class ListOf(Spec):
@@ -1092,6 +1160,16 @@ class Cat(Spec):
                 return sp.unit()
         return "00"
 
+    def unusual(self, rng):
+        base = [sp.canon(rng, 0) for sp in self.specs]
+        out = []
+        for i, sp in enumerate(self.specs):
+            for u in sp.unusual(rng):
+                v = "".join(base[:i] + [u] + base[i + 1:])
+                if v not in out:
+                    out.append(v)
+        return out
+
 
 class Rec(Spec):
     def __init__(self, **fields):
@@ -1111,6 +1189,10 @@ class Rec(Spec):
     def rejects(self, rng):
         base = self.canon(rng, 0)
         return [{**base, n: b} for n, sp in self.fields.items() for b in sp.rejects(rng)]
+
+    def unusual(self, rng):
+        base = self.canon(rng, 0)
+        return [{**base, n: u} for n, sp in self.fields.items() for u in sp.unusual(rng)]
 
 
 def mode_families(e: Entry, cap: int = 400) -> List[List[dict]]:
@@ -1135,16 +1217,48 @@ def mode_families(e: Entry, cap: int = 400) -> List[List[dict]]:
     return fams
 
 
+def _flag_bases(e: Entry, base: dict) -> List[dict]:
+    """the base arguments under every setting of the entry's boolean mode flags (debug=..., repair=..., one flag at a time)"""
+    out = [base]
+    for n, sp in e.args.items():
+        vals = getattr(sp, "values", None)
+        if isinstance(sp, Choice) and vals and all(isinstance(v, bool) for v in vals):
+            for v in sorted(set(vals)):
+                if v != base[n]:
+                    out.append({**base, n: v})
+    return out
+
+
 def reject_candidates(e: Entry) -> List[dict]:
-    """Calls of the entry with exactly one argument replaced by a value just outside its spec (deterministic)."""
+    """Calls of the entry with exactly one argument replaced by a value just outside its spec, under every setting of the
+    entry's boolean mode flags (deterministic)."""
     import random
 
     rng = random.Random(f"C19/rejects/{e.id}")
+    base0 = {n: s.canon(random.Random(f"C19/{e.id}/0"), 0) for n, s in e.args.items()}
+    out, seen = [], set()
+    for base in _flag_bases(e, base0):
+        flags = ",".join(f"{n}={base[n]}" for n in sorted(base) if base[n] != base0[n])
+        for n, sp in e.args.items():
+            for b in sp.rejects(random.Random(f"C19/rejects/{e.id}/{n}")):
+                a = {**base, n: b}
+                key = json.dumps(a, sort_keys=True)
+                if key not in seen:
+                    seen.add(key)
+                    out.append({"e": e.id, "a": a, "arg": n + ("|" + flags if flags else "")})
+    return out
+
+
+def unusual_candidates(e: Entry) -> List[dict]:
+    """Calls of the entry with one enum-coded switch (opcode, MFID, format, ... given as a Choice of codes) set to a code of
+    the same width that the spec does not list (deterministic)."""
+    import random
+
     base = {n: s.canon(random.Random(f"C19/{e.id}/0"), 0) for n, s in e.args.items()}
     out, seen = [], set()
     for n, sp in e.args.items():
-        for b in sp.rejects(rng):
-            a = {**base, n: b}
+        for u in sp.unusual(random.Random(f"C19/unusual/{e.id}/{n}")):
+            a = {**base, n: u}
             key = json.dumps(a, sort_keys=True)
             if key not in seen:
                 seen.add(key)
